@@ -88,6 +88,76 @@ type c04Replay struct {
 	Inputs  string   `json:"inputs,omitempty"`
 }
 
+// recOT wraps an ot.OT and records what goes through it: the wires the
+// sender offers and the labels the receiver ends with.
+type recOT struct {
+	ot.OT
+	sent [][]ot.Wire
+	recv [][]ot.Label
+}
+
+func (r *recOT) Send(wires []ot.Wire) error {
+	r.sent = append(r.sent, append([]ot.Wire(nil), wires...))
+	return r.OT.Send(wires)
+}
+
+func (r *recOT) Receive(flags []bool, result []ot.Label) error {
+	err := r.OT.Receive(flags, result)
+	if err == nil {
+		r.recv = append(r.recv, append([]ot.Label(nil), result...))
+	}
+	return err
+}
+
+// otLeaks checks the OT hand-off against the clear transcript: (1) no label of a
+// wire offered through the OT may also travel in clear (the evaluator would hold
+// both labels whenever its choice differs); (2) no delivered label is R apart
+// from a transmitted 16-byte window or from another delivered label, nor is R.
+func otLeaks(stream []byte, r ot.Label, sent [][]ot.Wire, recv [][]ot.Label) []string {
+	var res []string
+	win := make(map[[16]byte]int, len(stream))
+	var w [16]byte
+	for i := 0; i+16 <= len(stream); i++ {
+		copy(w[:], stream[i:i+16])
+		if _, ok := win[w]; !ok {
+			win[w] = i
+		}
+	}
+	for bi, batch := range sent {
+		for wi, wr := range batch {
+			if off, ok := win[labelBytes(wr.L0)]; ok {
+				res = append(res, fmt.Sprintf("OT batch %d wire %d: L0 also transmitted in clear at offset %d", bi, wi, off))
+			}
+			if off, ok := win[labelBytes(wr.L1)]; ok {
+				res = append(res, fmt.Sprintf("OT batch %d wire %d: L1 also transmitted in clear at offset %d", bi, wi, off))
+			}
+		}
+	}
+	var all []ot.Label
+	for _, b := range recv {
+		all = append(all, b...)
+	}
+	seen := map[[16]byte]int{}
+	for i, d := range all {
+		if d.Equal(r) {
+			res = append(res, fmt.Sprintf("OT-delivered label %d is R", i))
+		}
+		x := d
+		x.Xor(r)
+		if off, ok := win[labelBytes(x)]; ok {
+			res = append(res, fmt.Sprintf("OT-delivered label %d xor R is transmitted in clear at offset %d", i, off))
+		}
+		if j, ok := seen[labelBytes(x)]; ok {
+			res = append(res, fmt.Sprintf("OT-delivered labels %d and %d differ by R", j, i))
+		}
+		seen[labelBytes(d)] = i
+	}
+	if len(res) > 12 {
+		res = res[:12]
+	}
+	return res
+}
+
 func setS(l ot.Label) ot.Label {
 	l.SetS(true)
 	return l
@@ -351,13 +421,19 @@ func runWholeSession(c *Ctx, idx int) error {
 	}
 	kind := otKinds[idx%3]
 	grand := &blockLog{r: r.Fork()}
-	res := runSession(circ, bitsToBig(x), bitsToBig(y), grand, kind.mk(r.Fork()), kind.mk(r.Fork()), 0, r.Fork(), nil, 60*time.Second)
+	gOT := &recOT{OT: kind.mk(r.Fork())}
+	eOT := &recOT{OT: kind.mk(r.Fork())}
+	res := runSession(circ, bitsToBig(x), bitsToBig(y), grand, gOT, eOT, 0, r.Fork(), nil, 60*time.Second)
 	if res.gErr != nil || res.eErr != nil || res.stalled {
 		c.Fail("c04:session-failed", fmt.Sprintf("session did not complete: %v %v", res.gErr, res.eErr), nil)
 		return nil
 	}
 	R := setS(grand.blocks[0])
 	self, pairs := scanR(res.g2e, R)
+	if leaks := otLeaks(res.g2e, R, gOT.sent, eOT.recv); len(leaks) > 0 {
+		c.Fail("c04:whole-circuit:ot-handoff-leaks-second-label", "a wire offered through the OT also has a label in the clear transcript / a delivered label is R apart from transmitted data",
+			c04Replay{Seed: c.Seed, Mode: "whole-session:" + kind.name, Case: idx, R: R.String(), Detail: strings.Join(leaks, "; ")})
+	}
 	c.Hist("mode:whole-session:" + kind.name)
 	c.Eval(fmt.Sprintf("session|%s|%s|%s|%s", circuitText(circ), bitsString(x), bitsString(y), kind.name), true)
 	c.Note("whole-circuit session %d (%s): %d transcript bytes scanned at every offset", idx, kind.name, len(res.g2e))
@@ -378,9 +454,22 @@ var c04Programs = []string{
 	"package main\nfunc main(a, b uint32) uint32 {\n\tvar r uint32\n\tfor i := 0; i < 4; i++ {\n\t\tr = r + (a & (b >> i))\n\t}\n\treturn r\n}\n",
 }
 
+// programs whose garbler argument ends just below the 64K wire-page boundary so
+// that the evaluator's input wires straddle it (in0 < 65536 < in0 + in1)
+var c04PageProgram = "package main\nfunc main(g [%d]byte, e uint32) uint32 {\n\treturn e ^ uint32(g[0]) ^ uint32(g[%d])\n}\n"
+
 func runStreamSession(c *Ctx, idx int) error {
 	r := c.rng.Fork()
 	src := c04Programs[idx%len(c04Programs)]
+	gIn := ""
+	eIn := ""
+	if idx%5 == 4 {
+		// 8190..8191 bytes: 65520 or 65528 garbler wires + 32 evaluator wires
+		nb := 8190 + (idx/5)%2
+		src = fmt.Sprintf(c04PageProgram, nb, nb-1)
+		gIn = "0x" + strings.Repeat(fmt.Sprintf("%02x", r.Intn(256)), nb)
+		eIn = fmt.Sprintf("0x%08x", uint32(r.U64()))
+	}
 	ga, ea, g2e, _ := newDuplexPair(r, 0)
 	gConn := p2p.NewConn(ga)
 	eConn := p2p.NewConn(ea)
@@ -390,6 +479,12 @@ func runStreamSession(c *Ctx, idx int) error {
 	params.Config = &env.Config{Rand: grand}
 	av := r.Intn(200)
 	bv := r.Intn(200)
+	if gIn == "" {
+		gIn = fmt.Sprint(av)
+		eIn = fmt.Sprint(bv)
+	}
+	gOT := &recOT{OT: ot.NewCO(r.Fork())}
+	eOT := &recOT{OT: ot.NewCO(r.Fork())}
 	type out struct {
 		vals []*big.Int
 		err  error
@@ -402,8 +497,8 @@ func runStreamSession(c *Ctx, idx int) error {
 				gch <- out{nil, fmt.Errorf("panic: %v", p)}
 			}
 		}()
-		_, vals, err := compiler.New(params).Stream(gConn, ot.NewCO(r.Fork()), "c04", strings.NewReader(src),
-			[]string{fmt.Sprint(av)}, nil)
+		_, vals, err := compiler.New(params).Stream(gConn, gOT, "c04", strings.NewReader(src),
+			[]string{gIn}, nil)
 		gch <- out{vals, err}
 	}()
 	go func() {
@@ -412,7 +507,7 @@ func runStreamSession(c *Ctx, idx int) error {
 				ech <- out{nil, fmt.Errorf("panic: %v", p)}
 			}
 		}()
-		_, vals, err := circuit.StreamEvaluator(eConn, ot.NewCO(r.Fork()), []string{fmt.Sprint(bv)}, nil, false)
+		_, vals, err := circuit.StreamEvaluator(eConn, eOT, []string{eIn}, nil, false)
 		ech <- out{vals, err}
 	}()
 	var go_, eo out
@@ -445,8 +540,15 @@ func runStreamSession(c *Ctx, idx int) error {
 	}
 	R := setS(grand.blocks[0])
 	self, pairs := scanR(data, R)
+	if leaks := otLeaks(data, R, gOT.sent, eOT.recv); len(leaks) > 0 {
+		c.Fail("c04:streaming:ot-handoff-leaks-second-label", "a wire offered through the OT also has a label in the clear transcript / a delivered label is R apart from transmitted data",
+			c04Replay{Seed: c.Seed, Mode: "stream-session", Case: idx, R: R.String(), Detail: strings.Join(leaks, "; "), Program: src[:min(len(src), 300)], Inputs: fmt.Sprintf("%d bytes / %s", (len(gIn)-2)/2, eIn)})
+	}
+	if idx%5 == 4 {
+		c.Hist("mode:stream-session:inputs-straddle-64K-wire-page")
+	}
 	c.Hist("mode:stream-session")
-	c.Eval(fmt.Sprintf("stream-session|%d|%d|%d", idx%len(c04Programs), av, bv), true)
+	c.Eval(fmt.Sprintf("stream-session|%d|%s|%s", idx%len(c04Programs), gIn[:min(len(gIn), 12)], eIn), true)
 	c.Note("streaming session %d: %d transcript bytes scanned at every offset", idx, len(data))
 	if len(self) > 0 || len(pairs) > 0 {
 		if len(pairs) > 20 {
@@ -454,7 +556,7 @@ func runStreamSession(c *Ctx, idx int) error {
 		}
 		c.Fail("c04:streaming:transcript-leaks-R", "the streaming garbler->evaluator transcript contains R or two 16-byte values differing by R",
 			c04Replay{Seed: c.Seed, Mode: "stream-session", Case: idx, R: R.String(), Offsets: pairs, Self: self,
-				Program: src, Inputs: fmt.Sprintf("%d/%d", av, bv)})
+				Program: src[:min(len(src), 300)], Inputs: gIn[:min(len(gIn), 20)] + "/" + eIn})
 	}
 	_ = bytes.Equal
 	return nil
